@@ -17,6 +17,11 @@ use std::cell::{Cell, RefCell};
 const SYS_CLOCK_GETTIME: i64 = 228;
 const SYS_GETRANDOM: i64 = 318;
 const CLOCK_REALTIME: i32 = 0;
+const CLOCK_MONOTONIC: i32 = 1;
+const CLOCK_MONOTONIC_RAW: i32 = 4;
+const CLOCK_REALTIME_COARSE: i32 = 5;
+const CLOCK_MONOTONIC_COARSE: i32 = 6;
+const CLOCK_BOOTTIME: i32 = 7;
 
 #[repr(C)]
 pub struct Timespec {
@@ -111,6 +116,10 @@ impl Xo {
 
 thread_local! {
     static FAKE_CLOCK_NS: Cell<Option<i128>> = const { Cell::new(None) };
+    /// simulated monotonic clock (ns); only consulted while a simulated wall clock is installed
+    static FAKE_MONO_NS: Cell<u64> = const { Cell::new(0) };
+    /// per-thread base so that monotonic time keeps increasing from one run to the next on a worker thread
+    static MONO_BASE_NS: Cell<u64> = const { Cell::new(1_000_000_000) };
     static ENTROPY: RefCell<Option<Xo>> = const { RefCell::new(None) };
     static ENTROPY_BYTES: Cell<u64> = const { Cell::new(0) };
     static ENTROPY_CALLS: Cell<u64> = const { Cell::new(0) };
@@ -120,6 +129,16 @@ thread_local! {
 /// Install (Some) or remove (None) the simulated wall clock of this thread, in ns since the epoch.
 pub fn set_clock_ns(ns: Option<i128>) {
     FAKE_CLOCK_NS.with(|c| c.set(ns));
+}
+/// Monotonic time seen by code under simulation = per-thread base + simulated time of the current run.
+pub fn set_mono_ns(sim_now_ns: u64) {
+    let base = MONO_BASE_NS.with(|c| c.get());
+    FAKE_MONO_NS.with(|c| c.set(base.saturating_add(sim_now_ns)));
+}
+/// called between runs: later runs on this thread see a later monotonic clock
+pub fn advance_mono_base(by_ns: u64) {
+    MONO_BASE_NS.with(|c| c.set(c.get().saturating_add(by_ns)));
+    set_mono_ns(0);
 }
 pub fn clock_ns() -> Option<i128> {
     FAKE_CLOCK_NS.with(|c| c.get())
@@ -202,17 +221,59 @@ pub unsafe extern "C" fn getrandom(buf: *mut u8, len: usize, flags: u32) -> isiz
 /// libc `clock_gettime(3)` replacement.
 #[no_mangle]
 pub unsafe extern "C" fn clock_gettime(clk: i32, ts: *mut Timespec) -> i32 {
-    if clk == CLOCK_REALTIME && !ts.is_null() {
+    if !ts.is_null() {
         if let Ok(Some(ns)) = FAKE_CLOCK_NS.try_with(|c| c.get()) {
-            let _ = CLOCK_READS.try_with(|c| c.set(c.get() + 1));
-            let sec = ns.div_euclid(1_000_000_000);
-            let nsec = ns.rem_euclid(1_000_000_000);
-            (*ts).tv_sec = sec as i64;
-            (*ts).tv_nsec = nsec as i64;
-            return 0;
+            if clk == CLOCK_REALTIME || clk == CLOCK_REALTIME_COARSE {
+                let _ = CLOCK_READS.try_with(|c| c.set(c.get() + 1));
+                let sec = ns.div_euclid(1_000_000_000);
+                let nsec = ns.rem_euclid(1_000_000_000);
+                (*ts).tv_sec = sec as i64;
+                (*ts).tv_nsec = nsec as i64;
+                return 0;
+            }
+            if clk == CLOCK_MONOTONIC || clk == CLOCK_MONOTONIC_RAW || clk == CLOCK_MONOTONIC_COARSE || clk == CLOCK_BOOTTIME {
+                // a library that starts measuring elapsed time with `Instant` reads simulated time too
+                if let Ok(m) = FAKE_MONO_NS.try_with(|c| c.get()) {
+                    (*ts).tv_sec = (m / 1_000_000_000) as i64;
+                    (*ts).tv_nsec = (m % 1_000_000_000) as i64;
+                    return 0;
+                }
+            }
         }
     }
     fix_errno(raw_syscall6(SYS_CLOCK_GETTIME, clk as i64, ts as i64, 0, 0, 0, 0)) as i32
+}
+
+#[repr(C)]
+pub struct Timeval {
+    pub tv_sec: i64,
+    pub tv_usec: i64,
+}
+/// libc `gettimeofday(2)` replacement (same simulated wall clock)
+#[no_mangle]
+pub unsafe extern "C" fn gettimeofday(tv: *mut Timeval, _tz: *mut core::ffi::c_void) -> i32 {
+    if !tv.is_null() {
+        let mut ts = Timespec { tv_sec: 0, tv_nsec: 0 };
+        let r = clock_gettime(CLOCK_REALTIME, &mut ts);
+        if r != 0 {
+            return r;
+        }
+        (*tv).tv_sec = ts.tv_sec;
+        (*tv).tv_usec = ts.tv_nsec / 1000;
+    }
+    0
+}
+/// libc `time(2)` replacement
+#[no_mangle]
+pub unsafe extern "C" fn time(out: *mut i64) -> i64 {
+    let mut ts = Timespec { tv_sec: 0, tv_nsec: 0 };
+    if clock_gettime(CLOCK_REALTIME, &mut ts) != 0 {
+        return -1;
+    }
+    if !out.is_null() {
+        *out = ts.tv_sec;
+    }
+    ts.tv_sec
 }
 
 /// Forces this object file into the final link and checks the seams work.
@@ -227,7 +288,15 @@ pub fn self_test() -> (bool, bool) {
     let seen = SystemTime::now().duration_since(UNIX_EPOCH).map(|d| d.as_nanos() as i128).unwrap_or(-1);
     set_clock_ns(None);
     let real = SystemTime::now().duration_since(UNIX_EPOCH).map(|d| d.as_nanos() as i128).unwrap_or(-1);
-    let clock_ok = seen == probe && real != probe;
+    // monotonic clock follows simulated time while a simulated wall clock is installed, real time otherwise
+    set_clock_ns(Some(probe));
+    set_mono_ns(5_000_000_000);
+    let m1 = std::time::Instant::now();
+    set_mono_ns(8_500_000_000);
+    let m2 = std::time::Instant::now();
+    set_clock_ns(None);
+    let mono_ok = m2.duration_since(m1) == std::time::Duration::from_millis(3500);
+    let clock_ok = seen == probe && real != probe && mono_ok;
     // entropy (through libc::syscall path as getrandom crate does)
     let draw = |seed: Option<u64>| -> [u8; 32] {
         set_entropy(seed.map(Xo::new));
